@@ -129,6 +129,31 @@ def run(prog, chk):
                 chk.ok("C18.b", f, "read %s[%d] with %s >= %d" % (P, k, L, bound), f.where(i), "length guard + case label", evals=len(atoms))
             else:
                 chk.bad("C18.b", f, "read-beyond-length:%s[%d]" % (P, k), f.where(i), "`%s[%d]` is read but the dominating guards only establish %s >= %d" % (P, k, L, bound))
+        # (2b) the first byte: `*P` before any advance of P needs the range to be non-empty
+        advs = [st.node for st in q.stores(f) if q.no_casts(f.r(st.lhs)) == P]
+        for i, n in enumerate(f.nodes):
+            if n["k"] != "UnaryOperator" or n.get("op") != "*" or q.no_casts(f.r(n["c"][0])) != P or f.node_pos(i) is None:
+                continue
+            if any(q.reaches(f, a, i) for a in advs) and not C.loop_blocks(f, i):
+                continue        # after the fall-through increments: counted by (3)
+            rel = fin.relations(f, f.node_pos(i), render=lambda x: q.no_casts(f.r(x)))
+            relx = fin.relations(f, f.node_pos(i))
+            def nonempty(r_):
+                l_, o_, h_ = r_
+                if (l_, o_, h_) in ((L, "!=", "0"), ("0", "!=", L), ("0", "<", L)):
+                    return True
+                if h_ == L and l_.isdigit() and ((o_ == "<=" and int(l_) >= 1) or o_ == "<"):
+                    return True
+                return False
+            ok1 = any(nonempty(r_) for r_ in rel)
+            if not ok1:
+                # `P < end` with end = P + L at loop entry
+                ok1 = any(o_ == "<" and l_ == P and re.sub(r"[() ]", "", h_) in ("%s+%s" % (P, L), "%s+%s" % (L, P)) for l_, o_, h_ in relx)
+            if ok1:
+                chk.ok("C18.b", f, "first byte `*%s` read with a non-empty range" % P, f.where(i), "dominating length fact", evals=len(rel) + 1)
+            else:
+                chk.bad("C18.b", f, "read-beyond-length:*%s" % P, f.where(i),
+                        "`*%s` is read on a path where nothing establishes %s >= 1: for an empty range the byte behind it is read (and decoded)" % (P, L))
         # (3) fall-through decoder: from each case label at most n dereferencing increments
         sws = [i for i, n in enumerate(f.nodes) if n["k"] == "SwitchStmt"]
         for sw in sws:
